@@ -563,3 +563,139 @@ def run(ctx):  # noqa: F811
     # LinearInterpolator: matrix construction (shared with C35)
     from .c35 import r35_4
     r35_4(ctx, ctx.model, rid="R02.7")
+
+
+# ---------------------------------------------------------------------------------------------------------------- R02.8 - R02.10
+def r02_8(ctx, m, rid="R02.8"):
+    """sign bookkeeping when a nested sum is unpacked: outer sign XOR inner sign"""
+    import itertools
+    S = m.cls("nifty.cl.operators.sum_operator", "SumOperator")
+    fi = S.methods.get("simplify")
+    ctx.rule(rid, "SumOperator.simplify: when a nested SumOperator is unpacked, each inner term's sign flag becomes (inner flag XOR "
+                  "outer flag) - decided by the truth table of the expression that builds the new flags", floor=1)
+    key = f"{S.key}.simplify::unpacked sign = inner XOR outer"
+    if fi is None:
+        ctx.und(rid, key, "simplify missing", S)
+        return
+    ctx.saw_func(fi)
+    loops = [lp for lp in walk_no_nested(fi.node) if isinstance(lp, ast.For) and isinstance(lp.target, ast.Tuple) and len(lp.target.elts) == 2
+             and any(isinstance(t, ast.If) and "isinstance" in src(t.test) and "SumOperator" in src(t.test) for t in lp.body)]
+    if not loops:
+        ctx.und(rid, key, "unpacking loop not found", fi)
+        return
+    lp = loops[0]
+    opn, ngn = [src(x) for x in lp.target.elts]
+    br = [t for t in lp.body if isinstance(t, ast.If) and "SumOperator" in src(t.test)][0]
+
+    def elem_fn(stmts, assume):
+        """returns python callable n -> new flag for the AugAssign/extend into the flag list under the assumed value of the outer flag"""
+        for st in stmts:
+            if isinstance(st, ast.If) and src(st.test).replace(" ", "") in (ngn, f"not{ngn}"):
+                tv = assume if src(st.test).replace(" ", "") == ngn else not assume
+                r = elem_fn(st.body if tv else st.orelse, assume)
+                if r is not None:
+                    return r
+            if isinstance(st, ast.AugAssign) and isinstance(st.op, ast.Add) and "_neg" in src(st.value):
+                v = st.value
+                if isinstance(v, ast.IfExp) and src(v.test).replace(" ", "") in (ngn, f"not{ngn}"):
+                    tv = assume if src(v.test).replace(" ", "") == ngn else not assume
+                    v = v.body if tv else v.orelse
+                if isinstance(v, ast.Call) and call_name(v) in ("list", "tuple") and len(v.args) == 1 and src(v.args[0]) == f"{opn}._neg":
+                    return lambda n: n
+                if isinstance(v, ast.ListComp) and len(v.generators) == 1 and src(v.generators[0].iter) == f"{opn}._neg":
+                    var = src(v.generators[0].target)
+                    elt = v.elt
+                    return lambda n, elt=elt, var=var: _bool_eval(elt, {var: n, ngn: assume})
+                return None
+        return None
+    table = {}
+    for ng, n in itertools.product((False, True), repeat=2):
+        f = elem_fn(br.body, ng)
+        if f is None:
+            ctx.und(rid, key, "flag expression not understood", fi, br)
+            return
+        try:
+            table[(n, ng)] = bool(f(n))
+        except KeyError as exc:
+            ctx.und(rid, key, f"flag expression not boolean over (inner, outer): {exc}", fi, br)
+            return
+    wrong = {k: v for k, v in table.items() if v != (k[0] != k[1])}
+    ctx.check(rid, key, not wrong, f"(inner, outer) -> new flag: {table}" + (f"; wrong for {sorted(wrong)}: X - (A - B) would become X - A - B" if wrong else ""), fi, br)
+
+
+def _bool_eval(e, env):
+    if isinstance(e, ast.Name):
+        return env[e.id]
+    if isinstance(e, ast.Constant) and isinstance(e.value, bool):
+        return e.value
+    if isinstance(e, ast.UnaryOp) and isinstance(e.op, ast.Not):
+        return not _bool_eval(e.operand, env)
+    if isinstance(e, ast.BoolOp):
+        vs = [_bool_eval(v, env) for v in e.values]
+        return all(vs) if isinstance(e.op, ast.And) else any(vs)
+    if isinstance(e, ast.BinOp) and isinstance(e.op, ast.BitXor):
+        return _bool_eval(e.left, env) != _bool_eval(e.right, env)
+    if isinstance(e, ast.Compare) and len(e.ops) == 1 and isinstance(e.ops[0], (ast.NotEq, ast.Eq, ast.Is, ast.IsNot)):
+        a, b = _bool_eval(e.left, env), _bool_eval(e.comparators[0], env)
+        return (a != b) if isinstance(e.ops[0], (ast.NotEq, ast.IsNot)) else (a == b)
+    if isinstance(e, ast.IfExp):
+        return _bool_eval(e.body, env) if _bool_eval(e.test, env) else _bool_eval(e.orelse, env)
+    raise KeyError(src(e))
+
+
+def r02_9(ctx, m):
+    """freshly allocated result buffers carry the dtype of the input"""
+    L = m.cls("nifty.cl.operators.linear_operator", "LinearOperator")
+    ctx.rule("R02.9", "result buffers that apply() allocates with np.zeros/empty/ones/full and then fills from the input are given an "
+                      "explicit dtype taken from the input (a default float64 buffer silently drops the imaginary part of complex input)", floor=1)
+    n = 0
+    for c in m.subclasses(L):
+        if c.local:
+            continue
+        for name, fi in c.methods.items():
+            if name not in ("apply", "_times", "_adjoint_times", "_apply_cartesian"):
+                continue
+            xn = fi.params()[1] if len(fi.params()) > 1 else None
+            for st in walk_no_nested(fi.node):
+                if isinstance(st, ast.Assign) and isinstance(st.value, ast.Call) and call_name(st.value) in ("zeros", "empty", "ones", "full") \
+                        and src(st.value.func).startswith(("np.", "xp.", "numpy.")) and isinstance(st.targets[0], ast.Name):
+                    call = st.value
+                    dt = [k.value for k in call.keywords if k.arg == "dtype"] or list(call.args[(2 if call_name(call) == "full" else 1):][:1])
+                    filled = any(isinstance(s2, ast.Assign) and isinstance(s2.targets[0], ast.Subscript) and src(s2.targets[0].value) == st.targets[0].id
+                                 for s2 in walk_no_nested(fi.node))
+                    if not filled:
+                        continue
+                    n += 1
+                    good = bool(dt) and xn is not None and (f"{xn}.dtype" in src(dt[0]) or "dtype" in src(dt[0]))
+                    ctx.check("R02.9", f"{fi.key}::{short(st, 60)}", good,
+                              None if good else f"`{src(call)}` has no dtype: the buffer is float64 whatever the input is", fi, st)
+    if n == 0:
+        ctx.und("R02.9", "nifty.cl::plain result allocations in apply", "none found", None)
+
+
+def r02_10(ctx, m):
+    O = m.cls("nifty.cl.operators.outer_product_operator", "OuterProduct")
+    ap = O.methods["apply"]
+    ctx.rule("R02.10", "OuterProduct: the forward action multiplies by the stored field, so the adjoint contracts with its complex "
+                       "CONJUGATE (tensordot(conj(f), y) over the field's axes)", floor=1)
+    from ..modespec import Spec
+    xn, mn = ap.params()[1:3]
+    fw = [src(e).replace(" ", "") for e, a, st in Spec(m, O, ap, {mn: 1}).run().returns]
+    ad = [src(e).replace(" ", "") for e, a, st in Spec(m, O, ap, {mn: 2}).run().returns]
+    key = f"{ap.key}::adjoint contracts with the conjugated field"
+    if len(fw) != 1 or len(ad) != 1 or "outer(self._field.val," not in fw[0]:
+        ctx.und("R02.10", key, f"forward {fw}, adjoint {ad}", ap)
+        return
+    good = "tensordot(self._field.val.conj()," in ad[0] or "tensordot(self._field.val.conjugate()," in ad[0] or "tensordot(self._field.conjugate().val," in ad[0] \
+        or "tensordot(np.conj(self._field.val)," in ad[0]
+    ctx.check("R02.10", key, good, f"adjoint: {ad[0][:140]}" + ("" if good else " - <y, A x> != <A^H y, x> for a complex field"), ap)
+
+
+_run_c02c = run
+
+
+def run(ctx):  # noqa: F811
+    _run_c02c(ctx)
+    r02_8(ctx, ctx.model)
+    r02_9(ctx, ctx.model)
+    r02_10(ctx, ctx.model)
